@@ -235,6 +235,9 @@ def py_sel_resolution(case, t):
         explained = bool(sub) and got == want - sub
         fails.append(('selection resolves to %s, the layout demands %s' % (sorted(got), sorted(want)),
                       F_SUBPKG if explained else None))
+    if t.get('S_elsewhere') is not None and set(t['S_elsewhere']) != got:
+        fails.append(('the selection depends on the directory kernprof is started from: %s from the script\'s directory, %s from a '
+                      'directory holding unrelated plain directories of the selected names' % (sorted(got), sorted(t['S_elsewhere'])), None))
     if bool(t['full']) != bool(case['full_h']):
         fails.append(('whole-script test gives %s, the selection demands %s' % (t['full'], case['full_h']), None))
     return fails
